@@ -105,6 +105,10 @@ def mk_tb(h, hs, variant="ok", name="Tb"):
     if variant == "busport":
         tb = h.Module(name=name)
         tb.VSS = h.Port(width=2)
+    if variant == "scalar_and_bus":  # the one scalar port, and a bus port next to it
+        tb.BUS = h.Port(width=2)
+    if variant == "scalar_and_two_buses":
+        tb.BUS, tb.BUS3 = h.Input(width=2), h.Output(width=3)
     if variant == "bundleport":  # one scalar port and a two-signal bundle port: three scalar ports
         tb.dport = h.Diff(port=True)
     if variant == "bundleport1":  # one scalar port and a one-signal bundle port
@@ -354,6 +358,12 @@ def _one(item):
             for o in objs:
                 if s.add(o) is not o:
                     return "add() did not return the added attribute"
+        elif style == "add_many":
+            # one call of add() with all the attributes, then one with none
+            s = hs.Sim(tb=tb)
+            got = s.add(*objs)
+            if len(objs) > 1 and not (isinstance(got, (list, tuple)) and len(got) == len(objs) and all(x is y for x, y in zip(got, objs))):
+                return "add(*attrs) did not return the added attributes"
         elif style == "methods":
             s = hs.Sim(tb=tb)
             for a, o in zip(attrs, objs):
@@ -436,7 +446,7 @@ def run(ctx):
     sc = scenarios(ctx.quick)
     items = []
     for k, attrs in enumerate(sc):
-        for style in ("ctor", "add", "methods", "class"):
+        for style in ("ctor", "add", "add_many", "methods", "class"):
             for listing in ("single", "shared", "distinct", "interleaved"):
                 items.append((attrs, style, listing))
     res = ctx.pmap(_one, items, chunk=20)
@@ -456,7 +466,7 @@ def run(ctx):
                 what = "raised " + r.split(":")[1].strip()
             ctx.violation(dict(style=it[1], what=what, save_target=",".join(save_t)), dict(attrs=it[0], style=it[1], listing=it[2]), r)
     import itertools as _it
-    for v in _it.product(("noport", "twoports", "busport", "bundleport", "bundleport1", "onlybundle"), ("single", "elaborated", "after_good", "before_good")):
+    for v in _it.product(("noport", "twoports", "busport", "scalar_and_bus", "scalar_and_two_buses", "bundleport", "bundleport1", "onlybundle"), ("single", "elaborated", "after_good", "before_good")):
         r = _bad_tb(v)
         ctx.count(states=1, transitions=1, traces_validated_against_impl=1)
         ctx.fam("bad_testbenches", cases=1)
